@@ -16,7 +16,8 @@ import tlc
 
 # L: components per name for the resolution check (get_native_path stays below the root, equals the model's path);
 # Lops: up to that many components every one of the 14 groups of operations is also executed in the jail
-TIERS = {"quick": dict(L=4, Lops=3), "thorough": dict(L=6, Lops=4)}
+# (thorough with Lops=4 / L=6 ran for more than 80 minutes: 3 million filesystem operations, single-threaded)
+TIERS = {"quick": dict(L=4, Lops=3), "thorough": dict(L=5, Lops=3)}
 
 
 def run(prop, tier, seed):
